@@ -316,7 +316,7 @@ Proof.
   split; [exact H1|]. split; [exact H2|]. constructor; [exact I|exact H3].
 Qed.
 
-Lemma TS_frame s c f b : TS s -> TS (set_log s (LFrame c f b :: log s)).
+Lemma TS_frame s c f b tx : TS s -> TS (set_log s (LFrame c f b tx :: log s)).
 Proof.
   intros (H1 & H2 & H3). unfold TS. cbn [chan_w chan_c log set_log].
   split; [exact H1|]. split; [exact H2|]. constructor; [exact I|exact H3].
@@ -567,7 +567,7 @@ Proof.
   - intros e. destruct e; repeat tpres_step.
 Qed.
 
-Lemma tpres_on_open c : tpres (on_open c).
+Lemma tpres_on_open c : tpres (on_open cfg c).
 Proof. unfold on_open. repeat tpres_step. Qed.
 
 Lemma tpres_on_close c : tpres (on_close c).
@@ -596,9 +596,9 @@ Lemma step_b_TS s e :
 Proof.
   intros Hs Hc. destruct e as [c|c m o|c|fault|dt fault]; cbn [step_b].
   - destruct (has_conn c s); [exact Hs|]. cbv zeta.
-    pose proof (run_m_TS (on_open c) (set_conns s (conns s ++ [(c, new_conn)]))
+    pose proof (run_m_TS (on_open cfg c) (set_conns s (conns s ++ [(c, new_conn)]))
                   (tpres_on_open c) Hs) as H.
-    destruct (run_m (on_open c) (set_conns s (conns s ++ [(c, new_conn)]))) as [s2 x].
+    destruct (run_m (on_open cfg c) (set_conns s (conns s ++ [(c, new_conn)]))) as [s2 x].
     exact H.
   - destruct (has_conn c s); [|exact Hs].
     pose proof (tcpres_on_message c m o s Hs (Hc c m o eq_refl)) as H. unfold wp in H.
@@ -752,7 +752,7 @@ Lemma handle_allocate_ok_wp c a side o n s cs npid mbox d1 d2 :
   open_body d1 a mbox side (now s) = TxOk tt d2 ->
   wp (handle_allocate c a side o)
      (fun _ s' => chan_w s' = d2 /\ chan_c s' = d2 /\ subs s' = subs s /\
-                  exists b, log s' = LFrame c (FAllocated n) b :: LCommitChan d2 ::
+                  exists b tx, log s' = LFrame c (FAllocated n) b tx :: LCommitChan d2 ::
                                      LCommitChan d2 :: LCommitChan d1 :: log s)
      (fun e s' => e = XCrowded /\ s' = claimed_state s d1 d2) s.
 Proof.
@@ -762,7 +762,7 @@ Proof.
   eapply wp_conseq;
     [exact (claim_nameplate_ok_wp a n side (now s) (o_draw o) s npid mbox d1 d2 H1 H2)| |].
   - intros m s' [-> ->]. wp_step. wp_step. wp_step. wp_step. wp_step. wp_step.
-    cbn. repeat split. eexists. reflexivity.
+    cbn. repeat split. eexists. eexists. reflexivity.
   - intros e s' [-> ->]. split; reflexivity.
 Qed.
 
@@ -947,7 +947,7 @@ Proof.
   destruct HS as [Hdb [Hcw Hcu] _ _ _ _].
   unfold erroneous in Herr. rewrite Ht, Hb in Herr.
   rewrite (step_cmd cfg s c msg o TAllocate cs Hlk Ht).
-  set (s1 := set_log s [LFrame c (FAck (m_id msg)) (is_clean s)]).
+  set (s1 := set_log s [LFrame c (FAck (m_id msg)) (is_clean s) (now s)]).
   assert (Hco : conn_of s1 c = cs) by (unfold conn_of; cbn; rewrite Hlk; reflexivity).
   rewrite (dispatch_bound cfg c TAllocate msg o s1 a side); try discriminate;
     [|rewrite Hco; exact Hb].
@@ -964,7 +964,7 @@ Proof.
       destruct Hpost as (G & _ & np & _ & _ & _ & Hh).
       pose proof (handle_allocate_ok_wp c a side o n s1 cs npid mbox d1 d2 Hlk Herr Ef Ecb Eob) as W.
       apply wp_elim in W.
-      destruct W as [([] & s' & E & Hw & Hc & Hs & b & Hl)|(e & s' & E & -> & ->)]; rewrite E.
+      destruct W as [([] & s' & E & Hw & Hc & Hs & b & tx & Hl)|(e & s' & E & -> & ->)]; rewrite E.
       * cbn [o_exc o_log chan_w chan_c subs set_log]. rewrite Hw, Hc.
         split; [reflexivity|]. split; [exact G|]. left. exists n.
         split; [rewrite Hl; reflexivity|]. split; [reflexivity|]. split; [exact Ef|].
